@@ -93,6 +93,12 @@ class FrameParser(Parser):
             )
             if self.validate:
                 frame.validate()
+                if frame.is_control and payload_length > 125:
+                    # The payload has not been read yet, so check the
+                    # announced length rather than len(frame.payload)
+                    raise errors.ProtocolError(
+                        "control frames must be <= 125 bytes in length"
+                    )
 
             if frame.is_text:
                 self._is_text = True
